@@ -78,7 +78,7 @@ def verifier_for(spec):
 def base_cases(tier):
     """JSON-able base packet descriptions"""
     for kind in ('I', 'D'):
-        names = [['a'], ['a', 'P', 'K'], []] if kind == 'I' else [['a'], ['a', 'K', 'T'], []]
+        names = [['a'], ['a', 'P', 'K'], [], ['a', 'I', 'K']] if kind == 'I' else [['a'], ['a', 'K', 'T'], [], ['I', 'a']]
         for toks in names:
             for plen in (None, 0, 5, 300):
                 for signer in ('digest', 'hmac', 'ed', 'rsa', 'ecdsa'):
